@@ -84,28 +84,47 @@ class _Guarded:
 
 
 class SymSet:
+    """set() stand-in.  While every element is a plain hashable value it IS a real set (same
+    iteration order as CPython's); it degrades to an insertion-ordered list on the first
+    symbolic element."""
+
     def __init__(self, items=()):
-        self.v = []
+        self.real = set()
+        self.v = None
         for x in items:
             self.add(x)
 
+    @staticmethod
+    def _plain(x):
+        return isinstance(x, (int, str, bytes, tuple, frozenset)) or x is None
+
     def add(self, x):
+        if self.v is None:
+            if self._plain(x):
+                self.real.add(x)
+                return
+            self.v = list(self.real)
         for y in self.v:
             if bool(y == x):
                 return
         self.v.append(x)
 
+    def _items(self):
+        return list(self.real) if self.v is None else list(self.v)
+
     def __contains__(self, x):
-        return bool(s_or(*[y == x for y in self.v]))
+        if self.v is None and self._plain(x):
+            return x in self.real
+        return bool(s_or(*[y == x for y in self._items()]))
 
     def __len__(self):
-        return len(self.v)
+        return len(self._items())
 
     def __bool__(self):
-        return bool(self.v)
+        return bool(self._items())
 
     def __iter__(self):
-        return iter(list(self.v))
+        return iter(self._items())
 
     def __repr__(self):
-        return "SymSet(%r)" % (self.v,)
+        return "SymSet(%r)" % (self._items(),)
